@@ -386,6 +386,26 @@ func planFor(prop, tier string) (*plan, error) {
 				}
 			}
 		}
+		// tasks without inputs behind a predicate (the predicate is their only dependency); a predicate on the
+		// last task of a longer chain (its number in the flow equals the number of an earlier task)
+		for _, n := range []string{"source", "join", "indep3", "chain3"} {
+			for _, f := range pg.WithPredFallback(pg.Shape(n), []string{"none", "shared", "upstream"}, 1) {
+				if hasFallback(f) {
+					continue
+				}
+				ps = append(ps, flowProg(exprConc(f), "PF:"+n))
+			}
+		}
+		// the dependency edge must not depend on how the value type is spelled
+		for _, sp := range []string{pg.SpPtr, pg.SpBasic, pg.SpSlice, pg.SpMap, pg.SpGeneric, pg.SpExt, pg.SpAnon, pg.SpArray, pg.SpFunc, pg.SpIface} {
+			for _, n := range []string{"chain2", "join"} {
+				f := exprConc(pg.Shape(n))
+				for i := range f.Types {
+					f.Types[i] = sp
+				}
+				ps = append(ps, flowProg(f, "S:types="+sp))
+			}
+		}
 		for _, par := range pg.Pars(2, false) {
 			if par.HasEnd() {
 				q := par.Clone()
@@ -766,7 +786,7 @@ func planFor(prop, tier string) (*plan, error) {
 			}
 		}
 		// spellings of value types and forms of task expressions
-		for _, sp := range []string{pg.SpPtr, pg.SpBasic, pg.SpSlice, pg.SpMap, pg.SpGeneric, pg.SpExt} {
+		for _, sp := range []string{pg.SpPtr, pg.SpBasic, pg.SpSlice, pg.SpMap, pg.SpGeneric, pg.SpExt, pg.SpAnon, pg.SpArray, pg.SpFunc} {
 			for _, n := range []string{"chain2", "multi"} {
 				f := exprConc(pg.Shape(n))
 				for i := range f.Types {
@@ -889,8 +909,12 @@ func planFor(prop, tier string) (*plan, error) {
 				ps = append(ps, parProg(q, "PAR"))
 			}
 		}
-		for _, n := range []string{"chain2", "fork"} {
-			for _, f := range pg.WithPredFallback(pg.Shape(n), []string{"none", "shared"}, 1) {
+		for _, n := range []string{"chain2", "fork", "chain3", "join"} {
+			pls := []string{"none", "shared"}
+			if n == "chain3" || n == "join" {
+				pls = []string{"none", "upstream"}
+			}
+			for _, f := range pg.WithPredFallback(pg.Shape(n), pls, 1) {
 				if hasFallback(f) {
 					continue
 				}
@@ -938,6 +962,15 @@ func planFor(prop, tier string) (*plan, error) {
 				}
 			}
 			out = append(out, base(p, 2))
+			// a panic is a failure too: one panicking function at a time
+			for _, id := range panickable(p) {
+				if isPredID(id) {
+					continue
+				}
+				sc := withDec(base(p, 2), []string{id}, probe.Panic)
+				sc.PanicKind = "error"
+				out = append(out, sc)
+			}
 			return out
 		}
 	case "C04":
@@ -973,11 +1006,42 @@ func planFor(prop, tier string) (*plan, error) {
 				ps = append(ps, parProg(c, "PAR-coe"))
 			}
 		}
+		// instrumented directives: the recover blocks also talk to the emitters
+		{
+			f := exprConc(pg.Shape("fork"))
+			f.Emitters, f.Instrument = "1", true
+			for i := range f.Tasks {
+				f.Tasks[i].Instrument = true
+			}
+			ps = append(ps, flowProg(f, "INS:fork"))
+			for _, f := range pg.WithPredFallback(pg.Shape("chain2"), []string{"shared"}, 1) {
+				g := exprConc(f)
+				g.Emitters, g.Instrument = "1", true
+				for i := range g.Tasks {
+					g.Tasks[i].Instrument = true
+				}
+				ps = append(ps, flowProg(g, "INS-PF:chain2"))
+			}
+			for _, par := range pg.Pars(1, false) {
+				for _, coe := range []string{"", "true"} {
+					if coe != "" && par.HasEnd() {
+						continue
+					}
+					q := par.Clone()
+					q.Conc, q.COE = "expr", coe
+					q.Emitters, q.Instrument = "1", true
+					for i := range q.Items {
+						q.Items[i].Instrument = true
+					}
+					ps = append(ps, parProg(q, "INS-PAR"))
+				}
+			}
+		}
 		pl.progs = numIDs(ps)
 		pl.scen = func(p *pg.Program) []genrt.Scenario {
 			var out []genrt.Scenario
 			ids := panickable(p)
-			kinds := []string{"string", "error", "runtime", "struct", "panicerror"}
+			kinds := []string{"string", "error", "runtime", "struct", "panicerror", "uncmp"}
 			ki := 0
 			for _, sub := range subsetsOf(ids, 2) {
 				for _, n := range ns {
@@ -995,6 +1059,12 @@ func planFor(prop, tier string) (*plan, error) {
 						sc.PanicKind = kinds[ki%len(kinds)]
 						ki++
 						out = append(out, sc)
+						if len(sub) == 2 && sc.PanicKind != "uncmp" && (p.Fam == "PAR-coe" || strings.HasPrefix(p.Fam, "INS")) {
+							// two panic values of one type that == cannot compare
+							s2 := sc
+							s2.PanicKind = "uncmp"
+							out = append(out, s2)
+						}
 					}
 				}
 			}
@@ -1028,10 +1098,36 @@ func planFor(prop, tier string) (*plan, error) {
 			q.COE = "false"
 			ps = append(ps, parProg(q, "PAR-coe=false"))
 		}
+		// the other scheduler parameters next to ContinueOnError: a user emitter, instrumentation, the default limit
+		for _, par := range pg.Pars(2, false) {
+			if par.HasEnd() || len(par.Items) < 2 {
+				continue
+			}
+			for vi, variant := range []string{"emit", "ins", "defconc"} {
+				q := par.Clone()
+				q.Conc, q.COE = "expr", []string{"true", "expr"}[vi%2]
+				switch variant {
+				case "emit":
+					q.Emitters = "1"
+				case "ins":
+					q.Emitters, q.Instrument = "stack", true
+				case "defconc":
+					q.Conc = ""
+					if q.Items[0].Kind != "task" || q.Items[1].Kind != "task" {
+						continue
+					}
+				}
+				ps = append(ps, parProg(q, "PAR-coe+"+variant))
+			}
+		}
 		pl.progs = numIDs(ps)
 		pl.scen = func(p *pg.Program) []genrt.Scenario {
 			var out []genrt.Scenario
 			ids := failable(p)
+			ns := ns
+			if p.Par.Conc == "" {
+				ns = []int{0}
+			}
 			for _, sub := range subsetsOf(ids, 3) {
 				for _, n := range ns {
 					if n == 1 && len(sub) > 1 {
@@ -1062,6 +1158,11 @@ func planFor(prop, tier string) (*plan, error) {
 			sc := base(p, 2)
 			sc.COE = true
 			out = append(out, sc)
+			if p.Par.Conc == "" {
+				for i := range out {
+					out[i].N, out[i].GOMAXP = 0, 1
+				}
+			}
 			return out
 		}
 	case "C09":
@@ -1090,10 +1191,30 @@ func planFor(prop, tier string) (*plan, error) {
 				ps = append(ps, parProg(q, "PAR"))
 			}
 		}
+		// the smallest directives, with and without a Concurrency option (a special case in the generator would sit here)
+		for _, n := range []string{"single", "source", "chain2"} {
+			for _, conc := range []string{"", "2"} {
+				f := pg.Shape(n)
+				f.Conc = conc
+				for i := range f.Tasks {
+					f.Tasks[i].Ctx = i%2 == 0
+				}
+				ps = append(ps, flowProg(f, "min:"+n+":conc="+conc))
+			}
+		}
+		for _, par := range pg.Pars(1, false) {
+			q := par.Clone()
+			q.Conc = ""
+			ps = append(ps, parProg(q, "min:PAR:conc="))
+		}
 		pl.progs = numIDs(ps)
 		pl.scen = func(p *pg.Program) []genrt.Scenario {
 			var out []genrt.Scenario
-			for _, n := range ns {
+			nn := ns
+			if strings.HasPrefix(p.Fam, "min:") {
+				nn = []int{0}
+			}
+			for _, n := range nn {
 				pre := base(p, n)
 				pre.Cancel = "pre"
 				pre.COE = true
@@ -1130,6 +1251,17 @@ func planFor(prop, tier string) (*plan, error) {
 			if p.Fam == "shape:fork" {
 				sc := withDec(withDec(base(p, 2), ids[:1], probe.Gate), ids[1:2], probe.Cancel)
 				out = append(out, sc)
+			}
+			if strings.HasPrefix(p.Fam, "min:") {
+				if len(ids) > 0 && !isPredID(ids[0]) {
+					// the only/first function is still running when another thread cancels: the call returns all the same
+					sc := withDec(base(p, 0), ids[:1], probe.Gate)
+					sc.Cancel = "thread"
+					out = append(out, sc)
+				}
+				for i := range out {
+					out[i].GOMAXP = 1
+				}
 			}
 			return out
 		}
